@@ -117,6 +117,8 @@ def gen_cases(ctx, n_univ):
 
 
 def run(ctx):
+    from checks import isolate
+    isolate.enter(ctx)
     bindir = core.cargo_build("h_rt")
     ok, problems = core.coq_audit(ctx, PROPS, THEOREMS)
     exe = os.path.join(bindir, "h_rt")
@@ -192,6 +194,8 @@ def run(ctx):
 
 
 def replay(ctx, path):
+    from checks import isolate
+    isolate.enter(ctx)
     obj = json.load(open(path))
     print(json.dumps(obj, indent=1))
     return 0
